@@ -83,6 +83,12 @@ theorem forkKey_linear_independent (recount : Bool) {es es' : List Entry} (hp : 
 
 theorem forkKey_prekeyed {h : HV} (hk : h.key ≠ 0) (n m : Nat) : forkArg h n = forkArg h m := forkArg_prekeyed hk n m
 
+/-- what the driver computes for a handle workflow from the observed order of entries is `enterAll` (the function
+the theorems above are about) on the entries of exactly those jobs, in that order -/
+theorem driver_replay_is_enterAll (recount : Bool) (lanes : List Lane) (js : List Nat) :
+    (replay recount lanes js {} []).1 = enterAll recount (replayEntries recount lanes js {}) ∧
+    (replayEntries recount lanes js {}).map (·.sib) = js := replay_enterAll recount lanes js
+
 /-- the handle `H("db")` created in the parent -/
 def h0 : HV := .hinit 1 0
 
@@ -133,5 +139,21 @@ def exProg : Prog where
     | _ => .lit (addV x (.int 10))
 
 example : (evalC exProg 10 (.call 0 (.lit (.int 1)))).map (·.1) = some (.int 23) := by decide
+
+/-- two admissible runs of the same expression that list the two children in opposite orders ... -/
+def n1 : JT := .node 1 [.int 1] [.int 1] (.int 1) true []
+def n2 : JT := .node 2 [.int 1] [.int 1] (.int 11) true []
+def e12 : Expr := .add (.call 1 (.lit (.int 1))) (.call 2 (.lit (.int 1)))
+
+theorem evn1 : Ev exProg (.call 1 (.lit (.int 1))) (.int 1) [n1] :=
+  .call (ka := []) (kids := []) (.lit _) (show Ev exProg (exProg.body 1 (.int 1)) (.int 1) [] from .lit _) (.refl _)
+theorem evn2 : Ev exProg (.call 2 (.lit (.int 1))) (.int 11) [n2] :=
+  .call (ka := []) (kids := []) (.lit _) (show Ev exProg (exProg.body 2 (.int 1)) (.int 11) [] from .lit _) (.refl _)
+theorem ev12 : Ev exProg e12 (.int 12) [n1, n2] := .add evn1 evn2 (.refl _)
+theorem ev21 : Ev exProg e12 (.int 12) [n2, n1] := .add evn1 evn2 (List.Perm.swap _ _ _)
+
+/-- ... to which `value_and_graph_independent` applies (its hypotheses are satisfiable with different listings) -/
+example : (kidHashes H.le [n1, n2]).Perm (kidHashes H.le [n2, n1]) :=
+  (value_and_graph_independent C07.structuralOrder ev12 ev21).2.1
 
 end RedunModel.C07
